@@ -26,8 +26,8 @@ def with_reloads(rng, evs):
 
 
 def generate(rng, tier):
-    plan = [("small", 14), ("split", 10), ("catalog", 3)] if tier == "quick" else \
-           [("small", 80), ("split", 50), ("catalog", 15), ("large", 4)]
+    plan = [("deep", 1), ("small", 14), ("split", 10), ("catalog", 3)] if tier == "quick" else \
+           [("deep", 1), ("small", 80), ("split", 50), ("catalog", 15), ("large", 4)]
     cases = []
     for kind, n in plan:
         for _ in range(n):
@@ -53,7 +53,7 @@ def run(ctx):
         cases = generate(ctx.rng, ctx.tier)
     evs = [c[1] for c in cases]
     outs = hist.run_histories(ctx, evs)
-    mm, sm = evaluate(ctx, "c11", evs, outs, shard=3 if ctx.tier == "quick" else 5)
+    mm, sm = evaluate(ctx, "c11", evs, outs, shard=1 if ctx.tier == "quick" else 4)
     ndumps = 0
     maxpages = 0
     heights = {}
